@@ -232,4 +232,85 @@ def handleSpec (line : String) : String :=
     | _, _, _ => "bad-op"
   | _ => "bad-op"
 
+/-! ### substitution groups (`xsdsg`): SubstitutionGroupComparator::isEquivalentTo on declared components
+
+   Q <nT> <type>*nT <nE> <elem>*nE
+     <type> := <base index|->:<e|r>:<xy>          derivation method of the type, block = extension restriction (0/1)
+     <elem> := <ns>:<type index>:<head index|->:<xyz>   block = substitution extension restriction (0/1)
+   type `i` has name `i`, element `k` has the name ⟨ns, k⟩ (harness: local name "q<k>" in urn:a / urn:b)
+   -> "<model bits> <spec bits>": for every ordered pair (d, c) of elements, row-major in d:
+      model = `isEquivalentTo E d c` (code-shaped), spec = `d = c ∨ substitutable E d c` (§3.3.6) -/
+
+def bit (s : String) (i : Nat) : Option Bool :=
+  match s.toList[i]? with
+  | some '1' => some true
+  | some '0' => some false
+  | _ => none
+
+def optIdx (s : String) : Option (Option Nat) :=
+  if s == "-" then some none else s.toNat?.map some
+
+def parseTypeTok (i : Nat) (s : String) : Option TypeDef :=
+  match s.splitOn ":" with
+  | [b, m, blk] =>
+    match optIdx b, bit blk 0, bit blk 1 with
+    | some base, some be, some br =>
+      if blk.length != 2 then none
+      else if m == "e" then some { name := i, base := base, derivedBy := .extension, block := { extension := be, restriction := br } }
+      else if m == "r" then some { name := i, base := base, derivedBy := .restriction, block := { extension := be, restriction := br } }
+      else none
+    | _, _, _ => none
+  | _ => none
+
+def parseElemTok (k : Nat) (s : String) : Option (ElemDecl × Option Nat) :=
+  match s.splitOn ":" with
+  | [ns, ty, hd, blk] =>
+    match ns.toNat?, ty.toNat?, optIdx hd, bit blk 0, bit blk 1, bit blk 2 with
+    | some n, some t, some h, some bs, some be, some br =>
+      if blk.length != 3 then none
+      else some ({ name := ⟨n, k⟩, type := t, block := { substitution := bs, extension := be, restriction := br } }, h)
+    | _, _, _, _, _, _ => none
+  | _ => none
+
+def parseAll {α : Type} (f : Nat → String → Option α) : Nat → List String → Option (List α)
+  | _, [] => some []
+  | i, s :: r =>
+    match f i s, parseAll f (i + 1) r with
+    | some a, some l => some (a :: l)
+    | _, _ => none
+
+def parseSubstEnv (ws : List String) : Option SubstEnv :=
+  match ws with
+  | nt :: rest =>
+    match nt.toNat? with
+    | none => none
+    | some nT =>
+      match parseAll parseTypeTok 0 (rest.take nT), rest.drop nT with
+      | some types, ne :: rest2 =>
+        match ne.toNat? with
+        | none => none
+        | some nE =>
+          if types.length != nT || rest2.length != nE then none else
+          match parseAll parseElemTok 0 rest2 with
+          | none => none
+          | some es =>
+            let names := es.map (fun p => p.1.name)
+            some { types := types,
+                   elems := es.map (fun p => { p.1 with subst := match p.2 with | none => none | some h => names[h]? }) }
+      | _, _ => none
+  | [] => none
+
+def handleSubst (line : String) : String :=
+  match words line with
+  | "Q" :: ws =>
+    match parseSubstEnv ws with
+    | none => "bad-op"
+    | some E =>
+      let names := E.elems.map (·.name)
+      let pairs := names.flatMap (fun d => names.map (fun c => (d, c)))
+      let m := pairs.map (fun p => if isEquivalentTo E p.1 p.2 then '1' else '0')
+      let s := pairs.map (fun p => if decide (p.1 = p.2) || substitutable E p.1 p.2 then '1' else '0')
+      s!"{String.ofList m} {String.ofList s}"
+  | _ => "bad-op"
+
 end XV.Driver.Particle
